@@ -60,10 +60,26 @@ enum Ctx {
     B(crrl::blake2s::KeyedBlake2s),
 }
 
+/// Only the 2^32-byte BLAKE2s streams (engine "hashlong4g").
+pub fn run_4g(t: &mut Tape, _tier: Tier, out: &mut RunOut) {
+    run_sel(t, 2, out)
+}
+
 pub fn run(t: &mut Tape, tier: Tier, out: &mut RunOut) {
-    let all = vectors();
     // quick: only the 2^29 family (about 1-2 s each); thorough: also the 2^32 BLAKE2s family
-    let cands: Vec<&LongVec> = all.iter().filter(|v| tier == Tier::Thorough || v.len < (1u64 << 31)).collect();
+    run_sel(t, if tier == Tier::Thorough { 1 } else { 0 }, out)
+}
+
+fn run_sel(t: &mut Tape, sel: u32, out: &mut RunOut) {
+    let all = vectors();
+    let cands: Vec<&LongVec> = all
+        .iter()
+        .filter(|v| match sel {
+            0 => v.len < (1u64 << 31),
+            1 => true,
+            _ => v.len >= (1u64 << 31),
+        })
+        .collect();
     let v = cands[t.usize(cands.len())].clone();
     let mut ctx = match v.alg.as_str() {
         "sha224" => Ctx::S224(crrl::sha2::Sha224::new()),
